@@ -11,7 +11,8 @@ if ! git -C "$WT" apply "$PATCH" 2>/dev/null && ! git -C "$WT" apply -3 "$PATCH"
 for P in "$@"; do
   VERIF_REPO="$WT" "$ROOT/check" "$P" quick > /tmp/seedrun-$$-$P.out 2>&1
   echo "== $P rc=$? $(grep -c '^VIOLATION' /tmp/seedrun-$$-$P.out) violation line(s)"
-  grep -E "^VIOLATION|violation:|broken:" /tmp/seedrun-$$-$P.out | head -6
+  grep -E "violation:|broken:" /tmp/seedrun-$$-$P.out | head -5
+  grep -E "^VIOLATION" /tmp/seedrun-$$-$P.out | head -3
   rm -f /tmp/seedrun-$$-$P.out
 done
 git -C /repo worktree remove --force "$WT"
